@@ -553,6 +553,8 @@ impl<'a> Exec<'a> {
                     a = Agg::new();
                     since_compact = 0;
                     self.stats.fault("node_restart");
+                    // C16: "since creation or clear" - the aggregates restart from nothing
+                    self.check_aggregates(d.as_ref(), &a, "after clear()");
                     self.check_empty(d.as_ref(), "C19", "after clear()");
                 }
                 DOp::Fork => {
@@ -728,6 +730,7 @@ impl Scenario for S4 {
         let mut check_at: Vec<usize> = (0..n_checks).map(|_| g.usize(n)).collect();
         check_at.sort();
         let zero_rate = if prop == "C16" || prop == "C15" { *g.pick(&[0u64, 0, 10, 100]) } else { 0 };
+        let restart_at = if prop != "C04" && g.chance(1, 3) { Some(g.usize(n)) } else { None };
         let mut ops = Vec::with_capacity(n + n / 4 + 8);
         for (i, &x) in vals.iter().enumerate() {
             if weighted {
@@ -747,6 +750,11 @@ impl Scenario for S4 {
             }
             if prop != "C04" && g.chance(1, 4000) {
                 ops.push(if g.chance(1, 2) { DOp::Clear } else { DOp::Fork });
+            }
+            // C16 / C15: one restart in the middle of a third of the runs, after a read has compacted
+            if restart_at == Some(i) {
+                ops.push(DOp::Read(g.below(6) as u8, g.f64()));
+                ops.push(DOp::Clear);
             }
         }
         DigestCase { scale, delta, backlog, smooth, generic, pattern, ops }
